@@ -293,6 +293,8 @@ def gen_file(rng):
         "VERTEX_SE3 5 0 0 0 0 0 0 1", "EDGE_SE3 0 1 0 0 0 0 0 0 1", "PARAMS_SE3OFFSET_X 1 0 0 0 0 0 0 1", "EDGE_SE2:QUAT 0 1 1 2 3",
         "TUTORIAL_PARAMS 0", "VERTEX_POINT_XY 2 0.5 0.5", "EDGE_DISTANCE_SE3 1 2 3.0 1.0", "EDGE_PRIOR 1 2 3",
         "# another comment", "# a third comment", "FIX 1", "FIX 2", "VERTEX_SE2X 8 0.0 1.0 2.0", "PARAMS_CAMERAPARAMETERS 1 4 5 6",
+        "# page break\x0cVERTEX_SE2 990001 5 5 0.5", "\x0c# form feed first", "# vt\x0bVERTEX_XY 990002 1 2", "# fs\x1cEDGE_SE2 990001 990001 0 0 0 1 0 0 1 0 1",
+        "# gs\x1dFIX 3", "# rs\x1ePARAMS_SE3OFFSET 990003 0 0 0 0 0 0 1",
     ]
     blank_pool = ["", "", "   ", " ", "\t"]
     lines = []
@@ -325,8 +327,32 @@ def gen_file(rng):
     return {"lines": lines}, meta
 
 
-def text_of(workload):
-    return "".join(ln["s"] + ln["eol"] for ln in workload["lines"])
+def text_of(workload, which=0):
+    lines = workload["lines"] if which == 0 else workload.get("lines_b") or workload["lines"]
+    return "".join(ln["s"] + ln["eol"] for ln in lines)
+
+
+N_INT_FIELDS = {"VERTEX_XY": 1, "VERTEX_TRACKXYZ": 1, "VERTEX_SE2": 1, "VERTEX_SE3:QUAT": 1, "EDGE_SE2": 2, "EDGE_SE3:QUAT": 2, "EDGE_SE2_XY": 2,
+                "EDGE_SE3_TRACKXYZ": 3, "PARAMS_SE2OFFSET": 1, "PARAMS_SE3OFFSET": 1, "EDGE_DISTANCE": 2, "EDGE_PRIOR_XY": 1}
+
+
+def second_file(rng, lines):
+    """Same tags, ids and parameter ids as the first file, other numbers: what a loader that remembers
+    anything between two calls would mix up."""
+    out = []
+    for ln in lines:
+        ln2 = dict(ln)
+        if ln["kind"] == "line" and rng.random() < 0.7:
+            parts = ln["s"].split()
+            k = 1 + N_INT_FIELDS.get(parts[0], 1)
+            new = []
+            for x in parts[k:]:
+                v = float(x)
+                nv = v * rng.choice([2.0, 0.5, -1.0, 1.5]) + rng.choice([0.0, 0.25, -0.125, 1.0])
+                new.append(repr(nv) if math.isfinite(nv) else x)
+            ln2["s"] = " ".join(parts[:k] + new)
+        out.append(ln2)
+    return out
 
 
 class C14(OptEngineBase):
@@ -356,13 +382,17 @@ class C14(OptEngineBase):
     ]
     PROBES = ["tag_" + t for t in TAGS] + [
         "custom_tag", "near_miss_tag", "crlf", "no_final_newline", "split_inside_number", "split_crlf_pair", "vertex_after_edge",
-        "exotic_float_syntax", "logger_suppressed", "eio_fired", "xfer_1", "warnings_counted", "nonunit_measurement_quat",
+        "exotic_float_syntax", "logger_suppressed", "eio_fired", "xfer_1", "warnings_counted", "nonunit_measurement_quat", "two_files_interleaved", "control_char_junk",
     ]
 
     def generate(self, rng, tier, index):
         config = draw_config(rng)
         config["logger"] = {"kind": "default"}
         workload, meta = gen_file(rng)
+        two = rng.random() < 0.35
+        if two:
+            workload["lines_b"] = second_file(rng, workload["lines"])
+            meta["two_files"] = True
         ops = []
         entries = list(ENTRIES)
         rng.shuffle(entries)
@@ -373,6 +403,7 @@ class C14(OptEngineBase):
                 "xfer": rng.choice([1, 1, 2, 3, 5, 7, 13, 31, 64, 4096]),
                 "bufsize": rng.choice([1, 2, 3, 16, 61, 512, 8192]),
                 "logger": rng.choice(["default", "default", "default", "error_level", "debug_level", "raising_handler", "disabled"]),
+                "file": rng.randrange(2) if two else 0,
             })
         if not any(o["entry"] == "Graph.from_g2o" for o in ops):
             ops[0]["entry"] = "Graph.from_g2o"
@@ -423,17 +454,24 @@ class C14(OptEngineBase):
         meta = case.get("meta", {})
         sig_ops = []
         compared = 0
-        text = text_of(case["workload"])
+        texts = [text_of(case["workload"], 0), text_of(case["workload"], 1)]
+        text = texts[0]
+        paths = [PATH, "/simfs/other.g2o"]
         with World(case.get("config"), None if dry else case.get("faults"), log) as w:
             import graphslam.load as gload
 
-            w.disk.put(PATH, text.encode("ascii"))
+            w.disk.put(paths[0], texts[0].encode("ascii"))
+            w.disk.put(paths[1], texts[1].encode("ascii"))
             ref = {}
             if not dry:
-                for custom in (False, True):
-                    ref[custom] = reference_parse(text, custom)
+                for which in (0, 1):
+                    for custom in (False, True):
+                        ref[(which, custom)] = reference_parse(texts[which], custom)
                 self._probes_for_text(res, case, text)
-            first_plain = None
+                if case["workload"].get("lines_b"):
+                    res.probe("two_files_interleaved")
+            first_plain = {}
+            g = None
             for i, op in enumerate(ops):
                 w.begin_op(i)
                 w.disk.max_xfer = int(op["xfer"])
@@ -443,13 +481,15 @@ class C14(OptEngineBase):
                 fired_before = len(w.plan.fired)
                 sc0, st0 = w.disk.split_crlf, w.disk.split_token
                 raised = None
-                g = None
+                g = None  # the previous graph is dropped before the next load, as in a loop over files
                 custom = op["entry"].endswith("+custom")
+                which = int(op.get("file", 0))
+                path = paths[which]
                 try:
                     if op["entry"].startswith("Graph.from_g2o"):
-                        g = Graph.from_g2o(PATH, list(useredges.CUSTOM_G2O_TYPES)) if custom else Graph.from_g2o(PATH)
+                        g = Graph.from_g2o(path, list(useredges.CUSTOM_G2O_TYPES)) if custom else Graph.from_g2o(path)
                     else:
-                        g = getattr(gload, op["entry"])(PATH)
+                        g = getattr(gload, op["entry"])(path)
                 except Exception as e:  # noqa
                     raised = e
                 finally:
@@ -485,7 +525,7 @@ class C14(OptEngineBase):
                 if raised is not None:
                     V("load-raised", "raised %s: %s on a well-formed file" % (type(raised).__name__, raised))
                     break
-                want, junk, big = ref[custom]
+                want, junk, big = ref[(which, custom)]
                 # ids must be integers
                 bad = None
                 for v in g._vertices:
@@ -544,11 +584,11 @@ class C14(OptEngineBase):
                     res.probe("logger_suppressed")
                 # all entry points / schedules agree
                 if not custom:
-                    if first_plain is None:
-                        first_plain = got
+                    if which not in first_plain:
+                        first_plain[which] = got
                     else:
                         res.n_checks += 1
-                        if got != first_plain:
+                        if got != first_plain[which]:
                             V("entry-points-differ", "this load differs from the first Graph.from_g2o-equivalent load of the same bytes")
                             break
                 compared += 1
@@ -579,6 +619,8 @@ class C14(OptEngineBase):
                     last_vertex = k
             elif ln["kind"] == "junk" and re.match(r"^(VERTEX|EDGE|PARAMS)", ln["s"]):
                 res.probe("near_miss_tag")
+            elif ln["kind"] == "junk" and re.search(r"[\x0b\x0c\x1c\x1d\x1e]", ln["s"]):
+                res.probe("control_char_junk")
         for t in seen:
             if t in TAGS:
                 res.probe("tag_" + t)
@@ -602,9 +644,12 @@ class C14(OptEngineBase):
 
     def shrink_moves(self, case):
         lines = case["workload"]["lines"]
+        has_b = bool(case["workload"].get("lines_b"))
         for k in range(len(lines)):
             c = copy.deepcopy(case)
             del c["workload"]["lines"][k]
+            if has_b and k < len(c["workload"]["lines_b"]):
+                del c["workload"]["lines_b"][k]
             yield c
         for k, ln in enumerate(lines):
             if ln["eol"] == "\r\n":
